@@ -484,9 +484,22 @@ def api_noise(p, rng, history, max_module=0xFFFF):
     n = 0
     for _ in range(rng.randint(1, 5)):
         live = [m for m in p.modules if m is not None and m.index != 0]
-        kind = rng.choice(("clone-attach", "macro", "bulk-fn", "bulk-gen", "note-mod", "list-connect", "layout", "reflect"))
+        kind = rng.choice(("clone-attach", "macro", "bulk-fn", "bulk-gen", "note-mod", "list-connect", "layout", "reflect", "fresh-in-place"))
         try:
-            if kind == "clone-attach" and live:
+            if kind == "fresh-in-place":
+                # a brand-new module whose list payloads (never assigned) are changed element by element
+                cls = rng.choice([api.m.Generator, api.m.AnalogGenerator, api.m.MultiSynth, api.m.WaveShaper, api.m.SpectraVoice, api.m.MultiCtl])
+                fm = p.new_module(cls)
+                if hasattr(fm, "drawn_waveform"):
+                    for i in rng.sample(range(32), 3):
+                        fm.drawn_waveform.samples[i] = rng.randint(-128, 127)
+                for attr in ("nv_curve", "vv_curve", "curve"):
+                    ch = getattr(fm, attr, None)
+                    if ch is not None and hasattr(ch, "values") and ch.values:
+                        ch.values[rng.randrange(len(ch.values))] = rng.randint(0, 200)
+                if hasattr(fm, "harmonics"):
+                    fm.harmonics[rng.randrange(16)].volume = rng.randint(0, 255)
+            elif kind == "clone-attach" and live:
                 m = rng.choice(live)
                 c = m.clone()
                 if rng.random() < 0.5:
